@@ -44,6 +44,7 @@ type FillTransform struct {
 	interval             int64
 	closedSignal         *bool
 	fillVal              interface{}
+	hasCountField        bool
 	prevChunk            Chunk
 	newChunk             Chunk
 	tmpChunk             Chunk
@@ -122,6 +123,7 @@ func NewFillTransform(inRowDataType []hybridqp.RowDataType, outRowDataType []hyb
 	if opt.Fill == influxql.NullFill {
 		if len(schema.CountField()) > 0 {
 			trans.fillVal = int64(0)
+			trans.hasCountField = true
 		}
 	}
 
@@ -319,7 +321,9 @@ func (trans *FillTransform) fill(ctx context.Context, errs *errno.Errs) {
 		}
 
 		// fast path, return chunk directly if there is only one trunk and group by time only
-		if idx == 0 && trans.nextChunk == nil && len(trans.opt.Dimensions) == 0 && trans.opt.Fill == influxql.NullFill {
+		// (not with count(): its null cells must still be turned into 0)
+		if idx == 0 && trans.nextChunk == nil && len(trans.opt.Dimensions) == 0 && trans.opt.Fill == influxql.NullFill &&
+			!trans.hasCountField {
 			windowStart, _ := trans.opt.Window(trans.opt.StartTime)
 			_, windowEnd := trans.opt.Window(trans.opt.EndTime)
 			if (windowEnd-windowStart)/trans.opt.Interval.Duration.Nanoseconds() == int64(trans.bufChunk.Len()) {
@@ -377,9 +381,11 @@ func (trans *FillTransform) processInterval(
 		if intervalIndex < tagStartIndex {
 			continue
 		} else if intervalIndex == tagStartIndex {
+			continued := false
 			if trans.prevWindow.name == c.Name() && bytes.Equal(trans.prevWindow.tags.Subset(nil),
 				c.Tags()[tagIndexAt].Subset(nil)) {
 				trans.updatePrevChunk(c)
+				continued = true
 			}
 			fromTime, _ := trans.opt.Window(c.TimeByIndex(intervalIndex))
 			for {
@@ -391,14 +397,26 @@ func (trans *FillTransform) processInterval(
 				}
 				break
 			}
-			trans.prevChunk = c
+			// the first row of a group has no previous row in this chunk: its previous values are those carried
+			// over from the preceding chunk (same group continued) or none at all (new group)
+			if continued {
+				for i := range trans.prevReadAts {
+					trans.prevReadAts[i] = 0
+				}
+			} else {
+				trans.prevChunk = nil
+				for i := range trans.prevWindow.nil {
+					trans.prevWindow.nil[i] = true
+				}
+			}
 
 			// Record real data
 			trans.appendCall(c, c.IntervalIndex()[intervalIndexAt])
 
+			trans.prevChunk = c
 			// the previous value of the following windows is this row, not the last row of the preceding group
 			for i := range trans.prevReadAts {
-				trans.prevReadAts[i] = intervalIndex
+				trans.prevReadAts[i] = trans.prevValueAt(c, i, tagStartIndex, intervalIndex)
 			}
 
 			if intervalIndexAt == c.IntervalLen()-1 && trans.isSameTag(c) {
@@ -410,7 +428,7 @@ func (trans *FillTransform) processInterval(
 		} else if intervalIndex == tagEndIndex {
 			// Ready to fill value for the interval at end
 			for i := range trans.prevReadAts {
-				trans.prevReadAts[i] = intervalIndex - 1
+				trans.prevReadAts[i] = trans.prevValueAt(c, i, tagStartIndex, intervalIndex-1)
 				trans.inputReadAts[i] = -1
 			}
 
@@ -418,7 +436,7 @@ func (trans *FillTransform) processInterval(
 			break
 		} else {
 			for i := range trans.prevReadAts {
-				trans.prevReadAts[i] = intervalIndex - 1
+				trans.prevReadAts[i] = trans.prevValueAt(c, i, tagStartIndex, intervalIndex-1)
 				trans.inputReadAts[i] = intervalIndex
 			}
 
@@ -432,7 +450,7 @@ func (trans *FillTransform) processInterval(
 			trans.appendCall(c, c.IntervalIndex()[intervalIndexAt])
 
 			for i := range trans.prevReadAts {
-				trans.prevReadAts[i] = intervalIndex
+				trans.prevReadAts[i] = trans.prevValueAt(c, i, tagStartIndex, intervalIndex)
 				trans.inputReadAts[i] = intervalIndex + 1
 			}
 
@@ -445,6 +463,20 @@ func (trans *FillTransform) processInterval(
 		}
 	}
 	return isStopFillTask
+}
+
+// prevValueAt returns, for fill(previous), the greatest index in [from, at] at which column i of c holds a value;
+// at itself when there is none or for the other fill modes.
+func (trans *FillTransform) prevValueAt(c Chunk, i, from, at int) int {
+	if trans.opt.Fill != influxql.PreviousFill {
+		return at
+	}
+	for j := at; j >= from && j >= 0; j-- {
+		if !c.Column(i).IsNilV2(j) {
+			return j
+		}
+	}
+	return at
 }
 
 func (trans *FillTransform) getFillChunkSize(c Chunk) {
@@ -645,7 +677,7 @@ func (trans *FillTransform) compute(c Chunk) {
 			break
 		}
 
-		trans.updatePrevAndInputAts(c)
+		trans.updatePrevAndInputAts(c, tagStartIndex)
 		for {
 			// If we are inside of an interval, continue below to postFill value at end
 			if (trans.opt.Ascending && trans.window.time < trans.endTime) ||
@@ -667,9 +699,9 @@ func (trans *FillTransform) compute(c Chunk) {
 	}
 }
 
-func (trans *FillTransform) updatePrevReadAt(i int) {
+func (trans *FillTransform) updatePrevReadAt(i int, from int) {
 	if trans.prevChunk.Column(i).IsNilV2(trans.prevReadAts[i]) {
-		start, end := trans.prevChunk.Column(i).GetRangeValueIndexV2(0, trans.prevReadAts[i])
+		start, end := trans.prevChunk.Column(i).GetRangeValueIndexV2(from, trans.prevReadAts[i])
 		if start < end {
 			if trans.prevChunk.Column(i).NilCount() == 0 {
 				trans.prevReadAts[i] = end - 1
@@ -691,9 +723,9 @@ func (trans *FillTransform) updateInputReadAts(c Chunk, i int) {
 	}
 }
 
-func (trans *FillTransform) updatePrevAndInputAts(c Chunk) {
+func (trans *FillTransform) updatePrevAndInputAts(c Chunk, from int) {
 	for i := range trans.prevReadAts {
-		trans.updatePrevReadAt(i)
+		trans.updatePrevReadAt(i, from)
 		trans.updateInputReadAts(c, i)
 	}
 }
@@ -807,8 +839,22 @@ func (trans *FillTransform) nextPrevWindow(c Chunk, intervalIndex int) {
 		trans.prevWindow.value = make([]interface{}, c.NumberOfCols())
 		trans.prevWindow.nil = make([]bool, c.NumberOfCols())
 	}
+	prevValues := trans.prevValues
+	if trans.opt.Fill == influxql.PreviousFill {
+		// the value carried into the next chunk is the last value of the column inside this group; when the group
+		// has none in this chunk it is the value carried into this chunk (same group continued) or nothing
+		prevValues = make([]interface{}, len(trans.prevValues))
+		tagStart := c.TagIndex()[c.TagLen()-1]
+		for i := range prevValues {
+			if j := trans.prevValueAt(c, i, tagStart, c.Len()-1); !c.Column(i).IsNilV2(j) {
+				prevValues[i] = trans.prevValues[i]
+			} else if !trans.prevWindow.nil[i] {
+				prevValues[i] = trans.prevWindow.value[i]
+			}
+		}
+	}
 	for i := range trans.updatePrevWindowFunc {
-		trans.updatePrevWindowFunc[i](c, &trans.prevWindow, trans.prevValues, i)
+		trans.updatePrevWindowFunc[i](c, &trans.prevWindow, prevValues, i)
 	}
 }
 
